@@ -165,7 +165,13 @@ impl SemanticState {
             }
         }
 
-        if self.modules.contains_key(path) && !path.is_empty() {
+        if path.is_empty() {
+            // the root holds the predefined types and is searched before a module's own items;
+            // a user module there would shadow every other module's definitions, and it has
+            // no file to be written to
+            anyhow::bail!("a module cannot be added under the empty path");
+        }
+        if self.modules.contains_key(path) {
             anyhow::bail!("module `{path}` has already been added");
         }
         self.modules.insert(
